@@ -260,6 +260,15 @@ func families(thorough bool) []family {
 			}
 			return out
 		}},
+		{name: "wide", ns: wide2, doc: func(n int) []*gDef {
+			out := make([]*gDef, n)
+			for i := range out {
+				out[i] = &gDef{kind: "op", optype: []string{"query", "mutation", "subscription"}[i%3], name: "Q",
+					vars: []gVarDef{{name: "v", typ: &gType{kind: "nonnull", inner: &gType{kind: "named", name: "T"}}}},
+					dirs: []gDir{{name: "d"}}, sub: []*gSel{{kind: "inline", cond: "T", sub: []*gSel{field("a")}}}}
+			}
+			return out
+		}},
 		{name: "wide", ns: wide2, val: func(n int) *gValue {
 			items := make([]*gValue, n)
 			for i := range items {
